@@ -29,6 +29,8 @@ PROP = [  # (subject fragment, property ids, key that used to be reported)
  ('mode-change-only file header was printed twice', 'C14,C01', 'c01:real:expected a line, found a file row (git log -p: mode-only section last in a commit)'),
  ('truncate_str_short must return a prefix', 'C03', 'panic|delta::paint::get_syntax_style_sections_for_lines|end byte index N is not a char boundary'),
  ("Display for Style omitted the 'hidden'", 'C12', 'c12:show-config-round-trip (hidden)'),
+ ('grep line whose path holds a tab panicked', 'C03,C16', "panic|delta::paint::superimpose_style_sections::superimpose|String mismatch...|via:delta::handlers::grep::*_emit_classic_format_code / via:delta::handlers::hunk_header::write_to_output_buffer"),
+ ('grep path regexes let a colon precede the extension dot', 'C16', "c16:path:plain / c16:group-header:plain (code starting with '.word' + separator)"),
 ]
 log = subprocess.run(['git', '-C', '/repo', 'log', '--format=%H%x09%s', '--reverse'], stdout=subprocess.PIPE).stdout.decode().splitlines()
 fixes = [l.split('\t', 1) for l in log if '\tfix:' in l]
